@@ -192,6 +192,13 @@ def gen_mesh_case(rng):
         cf = {nm: {t: [draw(rng, dts[which][nm], big[nm]) for _ in rows] for t, rows in M["blocks"]} for nm in base if rng.random() < 0.5}
         return pf, cf
     (ps, cs), (pr, cr) = side("src"), side("ref")
+    if rng.random() < 0.2:
+        # a cell field whose own name holds the separator that precedes the cell type in a cell field's full name
+        nm = "q @ s"
+        dts["src"][nm] = dts["ref"][nm] = "f8"
+        cs[nm] = {t: [draw(rng, "f8") for _ in rows] for t, rows in M["blocks"]}
+        if rng.random() < 0.7:
+            cr[nm] = {t: [draw(rng, "f8") for _ in rows] for t, rows in M["blocks"]}
     order = list(range(len(M["blocks"])))
     if rng.random() < 0.5:
         rng.shuffle(order)
